@@ -13,7 +13,7 @@ PROP = dict(
                'qsbr.acquire.enter_before_load', 'qsbr.leave.quiescent_only_at_zero', 'qsbr.leave.balanced', 'qsbr.enter.registers_then_counts', 'qsbr.free.on_reentry',
                'qsbr.advance.all_quiescent', 'qsbr.advance.keeps_invariant', 'qsbr.orphans.adopt_after_advance', 'qsbr.orphans.target_epoch', 'qsbr.sync.orders',
                'qsbr.guard.region_balance', 'qsbr.epochs.at_least_three',
-               'lfrc.layout', 'lfrc.acquire.inc_then_validate', 'lfrc.decrement.claims_once', 'lfrc.decrement.holds_reference', 'lfrc.reset.destroy_iff_claimed',
+               'lfrc.layout', 'lfrc.header.accessors', 'lfrc.acquire.inc_then_validate', 'lfrc.decrement.claims_once', 'lfrc.decrement.holds_reference', 'lfrc.reset.destroy_iff_claimed',
                'lfrc.new.reinit_count', 'lfrc.freelist.pop_owns', 'lfrc.sync.orders', 'lfrc.guard.algebra',
                'stamp.region.balanced', 'stamp.acquire.enter_before_load', 'stamp.retire.stamped_with_head', 'stamp.free.below_tail',
                'stampq.push.fresh_stamp', 'stampq.push.links', 'stampq.push.publish_order', 'stampq.remove.unlinks', 'stampq.remove.last_iff', 'stampq.remove.flags_own_stamp', 'stampq.tail_stamp.lower_bound',
